@@ -1879,6 +1879,12 @@ func (db *DatabaseContext) regeneratePrincipalSequences(ctx context.Context, aut
 				base.WarnfCtx(ctx, "Error when releasing sequence %d after a cas mismatch updating the resync principal. Falling back to skipped sequence handling.  Error:%v", nextSeq, releaseErr)
 			}
 		} else {
+			// For timeout errors the write may or may not have succeeded, so the sequence cannot be released as unused
+			if !base.IsTimeoutError(err) {
+				if releaseErr := db.sequences.releaseSequence(ctx, nextSeq); releaseErr != nil {
+					base.WarnfCtx(ctx, "Error when releasing sequence %d after a failed update of the resync principal. Falling back to skipped sequence handling.  Error:%v", nextSeq, releaseErr)
+				}
+			}
 			return err
 		}
 	}
